@@ -143,6 +143,57 @@ def dayloop_order(R, rep):
                f"day-loop order broken: `{n2}` does not strictly follow `{n1}` within one date", d.loc(), key=f"R2:dayloop:{n1}≺{n2}")
 
 
+def every_line_of_day(R, rep, rule="R2", only=None):
+    """each phase of a day is offered EVERY line of that day: the call that does the phase's work sits in a loop below the day loop
+    (a loop of the day loop's own body, a loop of the helper it delegates to, or a closure handed to an internal iteration) — not
+    on a single remembered line. A day scan that keeps "the day's split" in one slot applies only the last SPLIT/UNSPLIT written
+    for that date: with two securities splitting on one day, one of them keeps its old share count (seeded change C09-s8)."""
+    d = R.require("dayloop")
+    c = R.require("cascade")
+    rg = R.region(d)
+    outer = None
+    sites = {}
+    for it in rg.items:
+        cal = it["term"]["callee"]
+        tag = None
+        if cal.endswith("AcquisitionLedger::add_acquisition"):
+            tag = "add the day's acquisitions"
+        elif cal == c.id:
+            tag = "match the day's disposals"
+        else:
+            k = is_decimal_arith_assign(cal)
+            if k and it["term"]["args"]:
+                tgt = R._ref_target(it["body"], op_place(it["term"]["args"][0]))
+                if tgt == ("cgt_core::models::Section104Holding", "quantity"):
+                    tag = "pool unmatched acquisitions" if k == "AddAssign" else "apply splits" if k in ("MulAssign", "DivAssign") else None
+        if tag and (only is None or tag in only):
+            sites.setdefault(tag, []).append(it)
+    casc = [it["root_bb"] for it in sites.get("match the day's disposals", [])] or [it["root_bb"] for its in sites.values() for it in its]
+    loops = d.loops()
+    outer = max((bl for h, bl in loops if any(bb in bl for bb in casc)), key=len, default=None)
+    if outer is None:
+        rep.note(f"{rule}: the day loop has no loop of its own around its phases (internal iteration); per-line repetition is not judged")
+        return
+    for tag, its in sites.items():
+        bad = None
+        for it in its:
+            cur, ok = it, False
+            while cur is not None and not ok:
+                body, bb = cur["body"], cur["bb"]
+                if body.id == d.id:
+                    ok = any(bb in bl and bl < outer for h, bl in loops)
+                elif body.kind == "closure":
+                    ok = True
+                else:
+                    ok = any(bb in bl for h, bl in body.loops())
+                cur = (cur.get("ex") or {}).get("via")
+            if not ok:
+                bad = it
+        rep.ob(rule, f"dayloop:{tag}:every-line", bad is None, f"`{tag}` runs once per line of the day" if bad is None else
+               f"`{tag}` is done for ONE remembered line of the day, not in a loop over the day's lines: other lines of that date (another security's "
+               "SPLIT, a second purchase) are silently left out", (bad or its[0])["body"].loc(((bad or its[0])["term"]).get("sp")), key=f"{rule}:dayloop:{tag}:every-line")
+
+
 def window(R, rep):
     b, sites = R.leg("BedAndBreakfast")
     tb = R.terms(b, 0)
@@ -331,6 +382,7 @@ def run(ctx, rep):
                         "dayloop": R.require("dayloop").short, "canon": R.require("canon").short})
     cascade_order(R, rep)
     dayloop_order(R, rep)
+    every_line_of_day(R, rep, "R2")
     window(R, rep)
     labels(R, rep)
     reservations(R, rep)
